@@ -105,3 +105,67 @@ Example ex_flag :
                 Unsub true 5 50; SetTo false; Sub true 6 60] in
   scheduled s = [(2, 20); (1, 10); (3, 30); (4, 40); (6, 60)] /\ wf s = [] /\ wi s = [] /\ value s = false /\ errors s = 0.
 Proof. vm_compute. repeat split. Qed.
+
+(** ** nobody is lost: every subscriber of a history is still parked (on one of the two lists), or has been scheduled, or
+    withdrew itself - whatever the interleaving of subscriptions, withdrawals and edges *)
+Definition subs_of (ops : list op) : list sub :=
+  flat_map (fun o => match o with Sub _ w t => [(w, t)] | _ => [] end) ops.
+Definition unsubs_of (ops : list op) : list sub :=
+  flat_map (fun o => match o with Unsub _ w t => [(w, t)] | _ => [] end) ops.
+Definition accounted (s : fl) (p : sub) : Prop := In p (wf s) \/ In p (wi s) \/ In p (scheduled s).
+
+Lemma sub_eqb_eq a b : sub_eqb a b = true -> a = b.
+Proof.
+  unfold sub_eqb. destruct a as [a1 a2], b as [b1 b2]; cbn. intros H.
+  apply andb_prop in H. destruct H as [H1 H2]. apply Nat.eqb_eq in H1, H2. subst. reflexivity.
+Qed.
+
+Lemma remove_first_other x l : forall l' p, remove_first x l = Some l' -> In p l -> p = x \/ In p l'.
+Proof.
+  induction l as [|y l IH]; intros l' p H Hin; cbn in H; [discriminate|].
+  destruct (sub_eqb x y) eqn:E.
+  - inversion H; subst. apply sub_eqb_eq in E. subst. destruct Hin as [->|Hin]; auto.
+  - destruct (remove_first x l) as [r|] eqn:Er; cbn in H; [|discriminate]. inversion H; subst.
+    destruct Hin as [->|Hin]; [right; left; reflexivity|].
+    destruct (IH r p eq_refl Hin) as [->|Hr]; [left; reflexivity|right; right; exact Hr].
+Qed.
+
+Lemma step_keeps s o p : accounted s p -> accounted (step s o) p \/ (exists inv, o = Unsub inv (fst p) (snd p)).
+Proof.
+  unfold accounted. intros H. destruct o as [inv w t|inv w t|b].
+  - left. cbn. destruct (holds s inv); [|destruct inv]; cbn; rewrite ?in_app_iff; tauto.
+  - cbn. destruct (is_scheduled s t); [left; cbn; tauto|].
+    destruct inv.
+    + destruct (remove_first (w, t) (wi s)) as [l|] eqn:E; [|left; cbn; tauto]. cbn.
+      destruct H as [H|[H|H]]; [left; tauto| |left; tauto].
+      destruct (remove_first_other _ _ _ _ E H) as [->|Hl]; [right; exists true; reflexivity|left; tauto].
+    + destruct (remove_first (w, t) (wf s)) as [l|] eqn:E; [|left; cbn; tauto]. cbn.
+      destruct H as [H|[H|H]]; [|left; tauto|left; tauto].
+      destruct (remove_first_other _ _ _ _ E H) as [->|Hl]; [right; exists false; reflexivity|left; tauto].
+  - left. destruct b; cbn; destruct (value s); cbn; rewrite ?in_app_iff; tauto.
+Qed.
+
+Lemma step_new s inv w t : accounted (step s (Sub inv w t)) (w, t).
+Proof.
+  unfold accounted. cbn. destruct (holds s inv); [|destruct inv]; cbn; rewrite ?in_app_iff; cbn; tauto.
+Qed.
+
+Theorem nobody_is_lost ops p : In p (subs_of ops) -> accounted (run ops) p \/ In p (unsubs_of ops).
+Proof.
+  unfold run.
+  assert (G : forall ops s, accounted s p \/ In p (subs_of ops) ->
+                            accounted (fold_left step ops s) p \/ In p (unsubs_of ops)).
+  { clear ops. induction ops as [|o r IH]; intros s H; cbn.
+    - destruct H as [H|H]; [left; exact H|destruct H].
+    - assert (K : accounted (step s o) p \/ In p (subs_of r) \/ (exists inv, o = Unsub inv (fst p) (snd p))).
+      { destruct H as [H|H].
+        - destruct (step_keeps s o p H) as [H1|H1]; auto.
+        - cbn in H. apply in_app_iff in H. destruct H as [H|H]; [|auto].
+          destruct o as [inv w t|inv w t|b]; cbn in H; try contradiction.
+          destruct H as [<-|[]]. left. apply step_new. }
+      destruct K as [K|[K|[inv ->]]].
+      + destruct (IH _ (or_introl K)) as [R|R]; [left; exact R|right; apply in_app_iff; right; exact R].
+      + destruct (IH (step s o) (or_intror K)) as [R|R]; [left; exact R|right; apply in_app_iff; right; exact R].
+      + right. cbn. left. destruct p; reflexivity. }
+  intros H. apply (G ops init). right. exact H.
+Qed.
